@@ -36,7 +36,11 @@ type solveResult struct {
 }
 
 func runSolver(sd solverDef, file string, timeoutS int) solveResult {
-	ctx, cancel := context.WithTimeout(context.Background(), time.Duration(timeoutS+2)*time.Second)
+	return runSolverCtx(context.Background(), sd, file, timeoutS)
+}
+
+func runSolverCtx(parent context.Context, sd solverDef, file string, timeoutS int) solveResult {
+	ctx, cancel := context.WithTimeout(parent, time.Duration(timeoutS+2)*time.Second)
 	defer cancel()
 	args := sd.cmd(file, timeoutS)
 	t0 := time.Now()
@@ -171,43 +175,41 @@ func (s *Solver) solve(o *Obligation, g *FuncGen) {
 			}
 		}
 	}
-	// quick: z3 5.1 first, then the other two in parallel
-	r := runSolver(solvers[0], file, s.timeoutS)
-	record(solvers[0], r)
-	if r.status == "unsat" {
-		final("unsat", solvers[0].name)
-		return
+	// quick: all three solvers race; the first definite answer wins and the others are cancelled
+	ctx, cancelAll := context.WithCancel(context.Background())
+	type sr struct {
+		i int
+		r solveResult
 	}
-	if r.status == "sat" {
-		o.Model = s.model(file, g.vcText(o, s.lean))
-		final("sat", solvers[0].name)
-		return
+	ch := make(chan sr, len(solvers))
+	for i := range solvers {
+		go func(i int) { ch <- sr{i, runSolverCtx(ctx, solvers[i], file, s.timeoutS)} }(i)
 	}
-	var wg sync.WaitGroup
-	res := make([]solveResult, 2)
-	for i := 0; i < 2; i++ {
-		wg.Add(1)
-		go func(i int) {
-			defer wg.Done()
-			res[i] = runSolver(solvers[i+1], file, s.timeoutS)
-		}(i)
-	}
-	wg.Wait()
-	for i := 0; i < 2; i++ {
-		record(solvers[i+1], res[i])
-	}
-	for i := 0; i < 2; i++ {
-		if res[i].status == "unsat" {
-			final("unsat", solvers[i+1].name)
-			return
+	var r solveResult
+	decided := false
+	for n := 0; n < len(solvers); n++ {
+		x := <-ch
+		if decided {
+			continue
 		}
-	}
-	for i := 0; i < 2; i++ {
-		if res[i].status == "sat" {
+		record(solvers[x.i], x.r)
+		if x.i == 0 {
+			r = x.r
+		}
+		if x.r.status == "unsat" {
+			decided = true
+			cancelAll()
+			final("unsat", solvers[x.i].name)
+		} else if x.r.status == "sat" {
+			decided = true
+			cancelAll()
 			o.Model = s.model(file, g.vcText(o, s.lean))
-			final("sat", solvers[i+1].name)
-			return
+			final("sat", solvers[x.i].name)
 		}
+	}
+	cancelAll()
+	if decided {
+		return
 	}
 	if o.Hint != "case-split" && s.caseSplit(o, g, query, file) {
 		final("unsat", "case-split")
